@@ -181,6 +181,34 @@ def run(ctx):
     else:
         ctx.ob("anchor|actor_emit_event", False, "actor_emit_event not found")
 
+    # ------------------------------------------------------------------ R6 what is written after the revert
+    ctx.rule("argument-origin table: after the revert, finalize_fees_for_commit writes only FungibleVault Balance fields (royalty recipient "
+             "vaults, paying vaults, validator-rewards vault) and the ConsensusManager ValidatorRewards field; update_transaction_tracker "
+             "writes only under the TRANSACTION_TRACKER node; the only events fabricated by finalisation are fee events")
+    n = SC + "::finalize_fees_for_commit"
+    if ctx.anchor(n):
+        b = ctx.body(n)
+        sets = b.calls(r"::set_substate$")
+        ctx.floor("finalize_fees|set_substate-sites", len(sets), 4)
+        for bb, t in sets:
+            key = origin_names(b, t["args"][3])
+            keyok = any(re.search(r"agg:.*(FungibleVaultField::Balance|ConsensusManagerField::ValidatorRewards)$", x) for x in key) and \
+                not any(x.startswith("agg:") and not re.search(r"(FungibleVaultField::Balance|ConsensusManagerField::ValidatorRewards)$", x) for x in key)
+            part = origin_names(b, t["args"][2])
+            node = origin_names(b, t["args"][1], deep=True)
+            nodeok = any(re.search(r"RoyaltyRecipient::vault_id$|rev::Rev|locked_fees|into_unique_version|CONSENSUS_MANAGER|ComponentAddress::into_node_id$", x) for x in node)
+            ctx.ob("finalize_fees|writes-only-fee-substates", keyok and part == {"const:radix_engine_interface::types::node_layout::MAIN_BASE_PARTITION"} and nodeok,
+                   f"set_substate(node from {[x.split('::')[-1] for x in sorted(node) if x.startswith('call:')][:3]}, {sorted(part)}, key {sorted(k.split('::')[-2]+'::'+k.split('::')[-1] for k in key if k.startswith('agg:'))})", b.loc(bb))
+        evs = sorted({x.rsplit("::", 1)[1] for y in ctx.bodies_of(n) for x in y.fn.structs if x.endswith("Event")} | {v.split("::")[-2] + "::" + v.split("::")[-1] for y in ctx.bodies_of(n) for v in y.fn.vars if "Event::" in v})
+        ctx.ob("finalize_fees|only-fee-events", set(evs) <= {"DepositEvent", "PayFeeEvent", "BurnFungibleResourceEvent"} and bool(evs), f"events constructed by fee finalisation: {evs}", b.loc())
+    n = SC + "::update_transaction_tracker"
+    if ctx.anchor(n):
+        b = ctx.body(n)
+        for bb, t in b.calls(r"::set_substate$|::delete_partition$"):
+            node = origin_names(b, t["args"][1], deep=True)
+            ctx.ob("update_transaction_tracker|writes-only-tracker-node", any("TRANSACTION_TRACKER" in x for x in node) and not any(x.startswith("param:") for x in node),
+                   f"{t['f'].split('::')[-1]} targets node from {sorted(node)[:3]}", b.loc(bb))
+
     # ------------------------------------------------------------------ R7 un-revertable track operations
     ctx.rule("T4: Track::delete_partition (not undone by the revert) is called only from update_transaction_tracker; "
              "force_write only from SubstateIO::close_substate under the FORCE_WRITE test")
